@@ -1,15 +1,29 @@
 """
 C12 - equivalent ways of specifying a model give the same model.
 
-Each case is ONE abstract process set entered twice: two independent route assignments (Event objects, an
+Each case is ONE abstract process set entered three times: independent route assignments (Event objects, an
 Event whose single / member transition carries the rate, bare Transitions given to add_event, the legacy
 transition= / birth_death= lists, births named by origin or destination, explicit ODE equations,
-incremental add_* calls), two orders, two declaration styles (comma/space strings vs lists).
-Direct oracle (no Lean): the two real models have the same get_ode_eqn() (exact point), the same
-ode/jacobian evaluations and the same multiset of (rate, state-change column) pairs.
-Correspondence: each variant's real ODE against the driver's assemble of the same spec, and the driver's
-own two variants against each other.
+incremental add_* calls), different orders, different declaration styles (comma/space strings, lists, tuples)
+and different container FORMS of the same arguments (list, tuple, one bare object instead of a one-element list,
+assignment to the *_list properties instead of add_*).  The third variant is shaped so that every constructor
+keyword receives at most one object (the rest is added incrementally), which is where "one object instead of a
+list" applies.
+
+The three variants are alive at the same time and are built in an interleaved schedule fixed by the case:
+constructor of one, evaluation, an incremental operation on another, evaluation of a third, ... Every
+intermediate model is compared with the specification read up to that operation.
+
+Direct oracle (no Lean): (a) the specification's own ODE - sum rate*net + explicit terms from the abstract
+process set, and from the API-level spec for the intermediate models - evaluated by the harness interpreter
+(50 digits); its Jacobian by central differences; (b) the real models agree with each other: same
+get_ode_eqn() (exact point), same ode/jacobian evaluations, same multiset of (rate, state-change column) pairs.
+Correspondence: each variant's real ODE against the driver's assemble of the same spec (also of the prefixes:
+Props/C12.lean `staged_build`), and the driver's own variants against each other.  The Lean model has no notion
+of container form or of a second instance: a route is a function of the list of objects, `assemble` a function of
+the definition - which is exactly what the form / interleaving probes hold the code to.
 """
+import copy
 import json
 import random
 from fractions import Fraction
@@ -17,19 +31,94 @@ from fractions import Fraction
 import numpy as np
 
 from .. import exprs as E
-from .. import gen
-from .common import multiset_close, build_both, compare_errors, fl, mpf, mpf_s, sym_vs_lean, vec_close
+from .. import gen, pymodel
+from .common import (multiset_close, compare_errors, fd_jacobian, fl, lean_assemble, mpf, mpf_s, net_oracle, spec_oracle, sym_vs_lean,
+                     vec_close)
 
 PROP = "C12"
 LEAN = {"module": "Pygom.Props.C12",
         "required": ["Pygom.C12.routes_agree", "Pygom.C12.order_irrelevant", "Pygom.C12.explicit_ode_route",
                      "Pygom.C12.birth_origin_eq_destination", "Pygom.C12.splitDecl_join", "Pygom.C12.assemble_congr",
-                     "Pygom.C12.route_member_eq", "Pygom.C12.route_legacy_T", "Pygom.C12.route_legacy_BD", "Pygom.C12.route_bare"]}
+                     "Pygom.C12.route_member_eq", "Pygom.C12.route_legacy_T", "Pygom.C12.route_legacy_BD", "Pygom.C12.route_bare",
+                     "Pygom.C12.staged_build"]}
 BUDGET = {"quick": {"cases": 140}, "thorough": {"cases": 2500}}
-RULE = ("random process sets (as C01) entered through two independent route assignments / orders / declaration styles; "
-        "non-trivial = the two specs differ and the ODE is not identically zero")
-ASSUMPTIONS = ["expression identity decided by exact evaluation at 2 random rational points (50 digits)"]
+RULE = ("random process sets (as C01) entered through three independent route assignments / orders / declaration styles / container "
+        "forms (list, tuple, bare object, *_list assignment), the three instances built in an interleaved schedule with evaluations "
+        "in between (every intermediate model judged against the spec read so far); non-trivial = the specs differ and the ODE is "
+        "not identically zero")
+ASSUMPTIONS = ["expression identity decided by exact evaluation at 2 random rational points (50 digits)",
+               "input forms the unchanged pygom rejects with an error (pymodel.ACCEPTED_FORMS lists the accepted ones) are tagged, not judged"]
 TRUSTED = ["harness generator / printer / interpreter", "Lean driver JSON codec"]
+
+THEN_OF = {"event": "add_event", "transition": "add_transition", "birth_death": "add_birth_death", "ode": "add_ode"}
+
+
+def one_per_keyword(rng, spec):
+    """reshape a spec: bare-Transition events go to the legacy keywords half of the time, then every constructor
+    keyword keeps at most ONE object and the others are entered incrementally (multiset of processes unchanged)"""
+    spec = copy.deepcopy(spec)
+    c = spec["ctor"]
+    keep = []
+    for ev in c["event"]:
+        tj = ev.get("transition")
+        if tj is not None and rng.random() < 0.6:
+            c["transition" if tj["type"] == "T" else "birth_death"].append(tj)
+        else:
+            keep.append(ev)
+    c["event"] = keep
+    moved = []
+    for key in ("event", "transition", "birth_death", "ode"):
+        rng.shuffle(c[key])
+        while len(c[key]) > 1:
+            it = c[key].pop()
+            moved.append(dict(op="add_event", **it) if key == "event" else {"op": THEN_OF[key], "t": it})
+    rng.shuffle(moved)
+    spec["then"] = list(spec.get("then", [])) + moved
+    return spec
+
+
+def rand_forms(rng, spec, single_prob=0.5):
+    """container forms for one variant (see pymodel.build); forms pygom does not accept are drawn too, with small weight"""
+    f = {"ctor": {}, "then": []}
+    for key, lst in spec["ctor"].items():
+        if not lst:
+            continue
+        u = rng.random()
+        if len(lst) == 1 and u < single_prob:
+            f["ctor"][key] = "single"
+        elif u > 0.8:
+            f["ctor"][key] = "tuple"
+    if "list" in spec["state"] and rng.random() < 0.1:
+        f["state"] = "tuple"
+    if "list" in spec["param"] and rng.random() < 0.35:
+        f["param"] = "tuple"
+    for op in spec.get("then", []):
+        f["then"].append(gen.wchoice(rng, [("add", 5), ("setter_list", 2), ("setter_tuple", 1), ("setter_single", 2)]))
+    return f
+
+
+def schedule(rng, specs):
+    """an interleaving of [build v] [op v] [eval v]: all instances alive, evaluated before / between / after their
+    incremental operations, another instance evaluated between an operation and the next evaluation of its owner"""
+    vs = list(specs)
+    rng.shuffle(vs)
+    sched = []
+    for v in vs:
+        sched.append(["build", v])
+        if rng.random() < 0.8:
+            sched.append(["eval", v])
+    pending = {v: len(specs[v].get("then", [])) for v in vs}
+    while any(pending.values()):
+        v = rng.choice([w for w in vs if pending[w]])
+        for _ in range(min(pending[v], rng.choice([1, 1, 2, 3]))):
+            sched.append(["op", v]); pending[v] -= 1
+        if rng.random() < 0.85:
+            sched.append(["eval", rng.choice([w for w in vs if w != v])])
+            sched.append(["eval", v])
+        if pending[v] and rng.random() < 0.15:
+            # go on with a copy.deepcopy of the half-built, already evaluated model (the original stays alive)
+            sched.append(["clone", v])
+    return sched
 
 
 def make_cases(rng, tier, budget, n=None):
@@ -38,13 +127,21 @@ def make_cases(rng, tier, budget, n=None):
         r = random.Random(rng.getrandbits(64))
         _, meta0 = gen.gen_model(r, min_events=1)
         ab = meta0["abstract"]
-        ra, rb = random.Random(r.getrandbits(64)), random.Random(r.getrandbits(64))
+        ra, rb, rf = random.Random(r.getrandbits(64)), random.Random(r.getrandbits(64)), random.Random(r.getrandbits(64))
         as_ode = 0.25 if r.random() < 0.3 else 0.0
         specA, metaA = gen.make_spec(ra, ab, gen.ALL_ROUTES, shuffle=False, member_eq_prob=0.3)
         specB, metaB = gen.make_spec(rb, ab, gen.ALL_ROUTES, shuffle=True, as_ode_prob=as_ode, member_eq_prob=0.3)
+        specF, metaF = gen.make_spec(rf, ab, ("event", "event_eq", "event_bare", "legacy"), shuffle=True,
+                                     as_ode_prob=0.3 if rf.random() < 0.3 else 0.0, member_eq_prob=0.2)
+        specF = one_per_keyword(rf, specF)
+        specs = {"A": specA, "B": specB, "F": specF}
         pts = [gen.rand_point(r, meta0) for _ in range(2)]
-        cases.append({"A": specA, "B": specB, "routesA": metaA["routes"], "routesB": metaB["routes"],
+        cases.append({"A": specA, "B": specB, "F": specF, "routesA": metaA["routes"], "routesB": metaB["routes"],
+                      "routesF": metaF["routes"] + ["one_per_keyword"],
+                      "formsA": rand_forms(ra, specA, 0.3), "formsB": rand_forms(rb, specB, 0.3), "formsF": rand_forms(rf, specF, 0.7),
+                      "schedule": schedule(r, specs),
                       "states": ab["states"], "params": ab["params"],
+                      "abstract": {"states": ab["states"], "params": ab["params"], "procs": ab["procs"], "odes": ab["odes"], "derived": ab["derived"]},
                       "points": [{k: str(v) for k, v in p.items()} for p in pts]})
     return cases
 
@@ -59,75 +156,309 @@ def pairs(model, x, t, nS):
     return sorted([[float(a[j])] + [float(v) for v in V[:, j]] for j in range(len(a))])
 
 
+def form_items(spec, forms):
+    """the (kind, key, form, path) of every non-default form that actually applies to this spec"""
+    out = []
+    for key, fm in (forms.get("ctor") or {}).items():
+        lst = spec["ctor"].get(key) or []
+        if lst and fm != "list" and not (fm == "single" and len(lst) != 1):
+            out.append(("ctor", key, fm, ("ctor", key)))
+    for key in ("state", "param"):
+        if forms.get(key) == "tuple" and "list" in spec[key]:
+            out.append(("decl", key, "tuple", (key,)))
+    return out
+
+
+class Variant(object):
+    """one live instance being built in stages"""
+
+    def __init__(self, name, spec, forms, routes):
+        self.name, self.spec, self.routes = name, spec, routes
+        self.forms = copy.deepcopy(forms or {})
+        self.model = None
+        self.applied = 0
+        self.rejected = None
+        self.tags = []
+        self.originals = []
+
+    def sig_routes(self):
+        if self.originals:
+            return ""           # continuing on a deep copy: the signature names just that
+        fm = ["%s.%s=%s" % it[:3] for it in form_items(self.spec, self.forms) if it[0] == "ctor"]
+        tf = self.forms.get("then") or []
+        fm += sorted({"then.%s=%s" % (o["op"], tf[i]) for i, o in enumerate(self.spec.get("then", [])[:self.applied]) if i < len(tf) and tf[i] != "add"})
+        return ":" + ",".join(sorted(set(self.routes))) + ("|forms=" + ",".join(fm) if fm else "")
+
+    def build(self, viol):
+        for attempt in range(2):
+            try:
+                self.model = pymodel.build(self.spec, upto=0, forms=self.forms)
+                for kind, key, fm, path in form_items(self.spec, self.forms):
+                    self.tags.append("form:%s.%s=%s" % (kind, key, fm))
+                    if (kind, key, fm) not in pymodel.ACCEPTED_FORMS:
+                        self.tags.append("form-newly-accepted:%s.%s=%s" % (kind, key, fm))
+                return True
+            except Exception as exc:
+                unacc = [it for it in form_items(self.spec, self.forms) if (it[0], it[1], it[2]) not in pymodel.ACCEPTED_FORMS]
+                if attempt == 0 and unacc:
+                    # a form the unchanged pygom does not accept: tagged, not judged; fall back to a list
+                    for kind, key, fm, path in unacc:
+                        self.tags.append("form-not-accepted:%s.%s=%s:%s" % (kind, key, fm, type(exc).__name__))
+                        if kind == "ctor":
+                            self.forms["ctor"][key] = "list"
+                        else:
+                            self.forms.pop(key, None)
+                    continue
+                self.rejected = pymodel.err_enum(exc)
+                acc = ["%s.%s=%s" % it[:3] for it in form_items(self.spec, self.forms)]
+                viol.append({"what": "variant %s (routes %s, forms %s) rejected by the constructor with %s: %s" % (
+                                 self.name, sorted(set(self.routes)), acc, type(exc).__name__, str(exc)[:150]),
+                             "signature": "route-rejected:%s:%s" % (self.rejected, "+".join(sorted(acc)) or (
+                                 "+".join(sorted(r for r in set(self.routes) if r in ("event_member_eq",))) or "other")),
+                             "detail": json.dumps(self.spec)[:1500]})
+                return False
+        return False
+
+    def op(self, viol):
+        ops = self.spec.get("then", [])
+        if self.model is None or self.applied >= len(ops):
+            return
+        o = ops[self.applied]
+        tf = self.forms.get("then") or []
+        fm = tf[self.applied] if self.applied < len(tf) else "add"
+        try:
+            pymodel.apply_then(self.model, o, fm)
+            self.tags.append("then:%s=%s" % (o["op"], fm))
+            if ("then", o["op"], fm) not in pymodel.ACCEPTED_FORMS:
+                self.tags.append("form-newly-accepted:then.%s=%s" % (o["op"], fm))
+        except Exception as exc:
+            if ("then", o["op"], fm) not in pymodel.ACCEPTED_FORMS:
+                self.tags.append("form-not-accepted:then.%s=%s:%s" % (o["op"], fm, type(exc).__name__))
+                try:
+                    pymodel.apply_then(self.model, o, "add")
+                except Exception as exc2:
+                    exc = exc2
+                else:
+                    self.applied += 1
+                    return
+            self.rejected = pymodel.err_enum(exc)
+            viol.append({"what": "variant %s: incremental operation %s (form %s) rejected with %s: %s" % (self.name, o["op"], fm, type(exc).__name__, str(exc)[:150]),
+                         "signature": "route-rejected:%s:then.%s=%s" % (self.rejected, o["op"], fm), "detail": json.dumps(o)[:800]})
+            self.model = None
+            return
+        self.applied += 1
+
+
+def stage_eval(V, env, pt, viol, mism, tags, complete_oracle=None):
+    """evaluate variant V as built so far and compare it with the spec read so far (direct oracle) and with the
+    driver's assemble of that prefix (correspondence)"""
+    m = V.model
+    if m is None:
+        return
+    states = [str(s) for s in m.state_list]; params = [str(p) for p in m.param_list]
+    nS = len(states)
+    k, n_then = V.applied, len(V.spec.get("then", []))
+    where = "variant %s after constructor + %d of %d incremental operations" % (V.name, k, n_then)
+    sg = "stage:%s" % ("complete" if k == n_then else "partial")
+    if V.originals:
+        where += " (the later ones applied to a copy.deepcopy of the evaluated model)"
+        sg = "deepcopy-continued"
+    try:
+        fo = lambda e_: spec_oracle(V.spec, states, e_, upto=k)[0]
+        f_o, V_o, a_o, _ = spec_oracle(V.spec, states, env, upto=k)
+        J_o = np.array([[float(v) for v in row] for row in fd_jacobian(fo, env, states)]).reshape(nS, nS)
+    except (E.Undefined, ValueError):
+        tags.append("undefined_point")
+        return
+    x = fl(env, states); t = float(env["t"])
+    try:
+        m.parameters = fl(env, params)
+        f_n = np.asarray(m.ode(x, t), float).ravel()
+        J_n = np.asarray(m.jacobian(x, t), float).reshape(nS, nS)
+    except Exception as exc:
+        viol.append({"what": "%s: evaluator raised %s: %s" % (where, type(exc).__name__, str(exc)[:200]),
+                     "signature": "%s:evaluator-raise:%s" % (sg, type(exc).__name__), "detail": json.dumps(pt)})
+        return
+    tags.append(sg)
+    if not vec_close(f_n, f_o, rel=1e-9, abs_=1e-9):
+        viol.append({"what": "%s: ode(x,t) is not the ODE of the processes entered so far" % where, "signature": sg + ":ode" + V.sig_routes(),
+                     "detail": "ode=%s expected=%s at %s" % (f_n.tolist(), [mpf_s(v) for v in f_o], pt)})
+    if not np.all(np.abs(J_n - J_o) <= 1e-7 + 1e-7 * np.maximum(np.abs(J_n), np.abs(J_o))):
+        viol.append({"what": "%s: jacobian(x,t) is not the derivative of the ODE of the processes entered so far" % where,
+                     "signature": sg + ":jacobian" + V.sig_routes(), "detail": "jacobian=%s expected=%s at %s" % (J_n.tolist(), J_o.tolist(), pt)})
+    if a_o:
+        try:
+            got = pairs(m, x, t, nS)
+            exp = sorted([[float(a_o[j])] + [float(v) for v in V_o[j]] for j in range(len(a_o))])
+            if not multiset_close(got, exp):
+                viol.append({"what": "%s: (eventRateVector, vMat column) pairs are not the processes entered so far" % where,
+                             "signature": sg + ":rates+vmat" + V.sig_routes(), "detail": "got=%s expected=%s at %s" % (got, exp, pt)})
+        except Exception as exc:
+            viol.append({"what": "%s: eventRateVector/vMat raised %s: %s" % (where, type(exc).__name__, str(exc)[:200]),
+                         "signature": "%s:evaluator-raise:%s" % (sg, type(exc).__name__), "detail": json.dumps(pt)})
+    # correspondence: the driver's assemble of the same prefix (Props/C12.lean staged_build: building a prefix and
+    # folding the remaining operations over it is building the whole)
+    if k < n_then:
+        lr = lean_assemble(dict(V.spec, then=V.spec["then"][:k]))
+        if lr.get("err") is not None:
+            mism.append({"what": "%s:prefix:accept/reject" % V.name, "detail": "lean=%s python accepted" % lr.get("err")})
+        else:
+            try:
+                sym_vs_lean(list(m.get_ode_eqn()), lr["ode"], env, "%s:prefix:get_ode_eqn" % V.name, mism, tags)
+            except Exception as exc:
+                mism.append({"what": "%s:prefix:get_ode_eqn" % V.name, "detail": "raised %s" % exc})
+
+
 def run_case(case):
     tags, mism, viol = [], [], []
-    built = {}
-    for v in ("A", "B"):
-        lr, model, perr, stage = build_both(case[v])
-        mism += [dict(m, what=v + ":" + m["what"]) for m in compare_errors(lr, perr, stage)]
-        built[v] = (lr, model, perr, stage)
+    names = [v for v in ("A", "B", "F") if v in case]
+    Vs = {v: Variant(v, case[v], case.get("forms" + v), case["routes" + v]) for v in names}
+    lrs = {}
+    for v in names:
+        lrs[v] = lean_assemble(case[v])
         for r in set(case["routes" + v]):
             tags.append("route:" + r)
-    rej = {v: built[v][2] for v in built}
-    if rej["A"] or rej["B"]:
-        # every variant is a well-formed way of entering the process set: a rejection of one breaks the property
-        for v in ("A", "B"):
-            if rej[v]:
-                viol.append({"what": "variant %s (routes %s) rejected with %s at %s" % (v, sorted(set(case["routes" + v])), rej[v], built[v][3]),
-                             "signature": "route-rejected:%s:%s" % (rej[v], "+".join(sorted(r for r in set(case["routes" + v]) if r in ("event_member_eq",))) or "other"),
+    pts = [{k: Fraction(val) for k, val in p.items()} for p in case["points"]]
+    sched = case.get("schedule") or ([["build", v] for v in names])
+    env0 = pts[0]
+    for act, v in sched:
+        V = Vs[v]
+        if act == "build":
+            V.build(viol)
+        elif act == "op":
+            V.op(viol)
+        elif act == "eval":
+            stage_eval(V, env0, case["points"][0], viol, mism, tags)
+        elif act == "clone" and V.model is not None:
+            try:
+                V.originals.append(V.model)
+                V.model = copy.deepcopy(V.model)
+                tags.append("continued-on-deepcopy")
+            except Exception as exc:
+                V.model = V.originals.pop()
+                tags.append("deepcopy-raised:%s" % type(exc).__name__)
+        if viol:
+            break
+    if not viol:
+        for v in names:                      # whatever the schedule left over
+            V = Vs[v]
+            if V.model is None and V.rejected is None:
+                V.build(viol)
+            while V.model is not None and V.applied < len(V.spec.get("then", [])):
+                V.op(viol)
+    for v in names:
+        tags += Vs[v].tags
+    # the driver must accept what the real code accepts (and the other way round)
+    for v in names:
+        perr = Vs[v].rejected
+        stage = "build" if perr else None
+        if perr is None and Vs[v].model is not None and not viol:
+            try:
+                Vs[v].model.get_ode_eqn(); Vs[v].model.get_StateChangeMatrix(); Vs[v].model.get_EventRateVector(); Vs[v].model.get_pureOdeVector()
+            except Exception as exc:
+                perr, stage = pymodel.err_enum(exc), "assemble"
+                Vs[v].rejected = perr
+                viol.append({"what": "variant %s (routes %s) rejected with %s at assemble" % (v, sorted(set(case["routes" + v])), perr),
+                             "signature": "route-rejected:%s:%s" % (perr, "+".join(sorted(r for r in set(case["routes" + v]) if r in ("event_member_eq",))) or "other"),
                              "detail": json.dumps(case[v])[:1500]})
-        return {"nontrivial": False, "mismatches": mism, "violations": viol, "tags": tags + ["rejected"]}
-    (lrA, mA, _, _), (lrB, mB, _, _) = built["A"], built["B"]
-    sA = [str(s) for s in mA.state_list]; sB = [str(s) for s in mB.state_list]
-    pA = [str(p) for p in mA.param_list]; pB = [str(p) for p in mB.param_list]
-    if sA != sB or pA != pB:
-        viol.append({"what": "declaration styles give different names", "signature": "declaration-names", "detail": "%s %s vs %s %s" % (sA, pA, sB, pB)})
+        if not viol or perr:
+            mism += [dict(m, what=v + ":" + m["what"]) for m in compare_errors(lrs[v], perr, stage)]
+    if viol or any(Vs[v].model is None for v in names):
+        return {"nontrivial": False, "mismatches": mism, "violations": viol, "tags": tags + ["rejected" if any(Vs[v].rejected for v in names) else "stage-violation"],
+                "sample": {v: case[v] for v in names}}
+    mA, lrA = Vs["A"].model, lrs["A"]
+    sA = [str(s) for s in mA.state_list]; pA = [str(p) for p in mA.param_list]
+    for v in names[1:]:
+        sB = [str(s) for s in Vs[v].model.state_list]; pB = [str(p) for p in Vs[v].model.param_list]
+        if sA != sB or pA != pB:
+            viol.append({"what": "declaration styles give different names", "signature": "declaration-names", "detail": "%s %s vs %s %s" % (sA, pA, sB, pB)})
+            return {"nontrivial": False, "mismatches": mism, "violations": viol, "tags": tags}
+        if sB != lrs[v]["states"] or pB != lrs[v]["params"]:
+            mism.append({"what": "names", "detail": "python %s lean %s" % (sB, lrs[v]["states"])})
+    if sA != lrA["states"] or pA != lrA["params"]:
+        mism.append({"what": "names", "detail": "python %s lean %s" % (sA, lrA["states"])})
+    ab = case.get("abstract")
+    if ab is not None and (sA != ab["states"] or pA != ab["params"]):
+        viol.append({"what": "declared names / order not kept", "signature": "declaration-names", "detail": "%s %s declared %s %s" % (sA, pA, ab["states"], ab["params"])})
         return {"nontrivial": False, "mismatches": mism, "violations": viol, "tags": tags}
-    if sA != lrA["states"] or pA != lrA["params"] or sB != lrB["states"]:
-        mism.append({"what": "names", "detail": "python %s lean %s / %s" % (sA, lrA["states"], lrB["states"])})
     nS = len(sA)
-    as_ode = "as_ode" in case["routesB"]
-    odeA, odeB = list(mA.get_ode_eqn()), list(mB.get_ode_eqn())
+
+    def sg(v, pre=""):
+        if Vs[v].originals or (not pre and Vs["A"].originals):
+            return "deepcopy-continued:final"
+        return pre + sig(case, v)
+    odes = {v: list(Vs[v].model.get_ode_eqn()) for v in names}
     nonzero = False
     for pt in case["points"]:
-        env = {k: Fraction(v) for k, v in pt.items()}
-        sym_vs_lean(odeA, lrA["ode"], env, "A:get_ode_eqn", mism, tags)
-        sym_vs_lean(odeB, lrB["ode"], env, "B:get_ode_eqn", mism, tags)
+        env = {k: Fraction(val) for k, val in pt.items()}
+        ref = None
+        if ab is not None:
+            try:
+                ref = net_oracle({"states": ab["states"], "procs": ab["procs"], "odes": ab["odes"]}, {"derived": ab["derived"]}, env)
+            except E.Undefined:
+                ref = None
+        for v in names:
+            sym_vs_lean(odes[v], lrs[v]["ode"], env, v + ":get_ode_eqn", mism, tags)
         try:
-            la = [E.ev(e, env) for e in lrA["ode"]]; lb = [E.ev(e, env) for e in lrB["ode"]]
-            if not all(E.close(x, y) for x, y in zip(la, lb)):
-                mism.append({"what": "lean:A-vs-B", "detail": "model variants differ: %s vs %s" % ([mpf_s(v) for v in la], [mpf_s(v) for v in lb])})
-            va = [E.sympy_eval(e, env) for e in odeA]; vb = [E.sympy_eval(e, env) for e in odeB]
+            lv = {v: [E.ev(e, env) for e in lrs[v]["ode"]] for v in names}
+            for v in names[1:]:
+                if not all(E.close(x, y) for x, y in zip(lv["A"], lv[v])):
+                    mism.append({"what": "lean:A-vs-" + v, "detail": "model variants differ: %s vs %s" % ([mpf_s(z) for z in lv["A"]], [mpf_s(z) for z in lv[v]])})
+            sv = {v: [E.sympy_eval(e, env) for e in odes[v]] for v in names}
         except E.Undefined:
             tags.append("undefined_point"); continue
-        if any(abs(v) > 1e-12 for v in va):
+        if any(abs(z) > 1e-12 for z in sv["A"]):
             nonzero = True
-        if not all(E.close(x, y, rel=mpf("1e-12"), abs_=mpf("1e-13")) for x, y in zip(va, vb)):
-            viol.append({"what": "get_ode_eqn() differs between two equivalent specifications", "signature": sig(case),
-                         "detail": "A=%s B=%s at %s" % ([mpf_s(v) for v in va], [mpf_s(v) for v in vb], pt)})
+        for v in names[1:]:
+            if not all(E.close(x, y, rel=mpf("1e-12"), abs_=mpf("1e-13")) for x, y in zip(sv["A"], sv[v])):
+                viol.append({"what": "get_ode_eqn() differs between two equivalent specifications (A, %s)" % v, "signature": sg(v),
+                             "detail": "A=%s %s=%s at %s" % ([mpf_s(z) for z in sv["A"]], v, [mpf_s(z) for z in sv[v]], pt)})
+        if ref is not None:
+            for v in names:
+                if not all(E.close(x, y, rel=mpf("1e-12"), abs_=mpf("1e-13")) for x, y in zip(sv[v], ref[0])):
+                    viol.append({"what": "get_ode_eqn() of variant %s is not the ODE of the process set" % v, "signature": sg(v, "spec:"),
+                                 "detail": "%s=%s expected=%s at %s" % (v, [mpf_s(z) for z in sv[v]], [mpf_s(z) for z in ref[0]], pt)})
         x = fl(env, sA); th = fl(env, pA); t = float(env["t"])
         try:
-            mA.parameters = th; mB.parameters = th
-            fA = np.asarray(mA.ode(x, t), float).ravel(); fB = np.asarray(mB.ode(x, t), float).ravel()
-            JA = np.asarray(mA.jacobian(x, t), float).ravel(); JB = np.asarray(mB.jacobian(x, t), float).ravel()
-            if not vec_close(fA, fB, rel=1e-9, abs_=1e-9):
-                viol.append({"what": "ode(x,t) differs between equivalent specifications", "signature": sig(case), "detail": "%s vs %s" % (fA.tolist(), fB.tolist())})
-            if not vec_close(JA, JB, rel=1e-8, abs_=1e-8):
-                viol.append({"what": "jacobian(x,t) differs between equivalent specifications", "signature": sig(case), "detail": "%s vs %s" % (JA.tolist(), JB.tolist())})
-            if not as_ode:
-                qa, qb = pairs(mA, x, t, nS), pairs(mB, x, t, nS)
-                if not multiset_close(qa, qb):
-                    viol.append({"what": "(eventRateVector, vMat column) multiset differs between equivalent specifications", "signature": sig(case),
-                                 "detail": "%s vs %s" % (qa, qb)})
+            num = {}
+            for v in names:        # interleaved: all parameters first, then the evaluators instance by instance
+                Vs[v].model.parameters = th
+            for v in names:
+                m = Vs[v].model
+                num[v] = (np.asarray(m.ode(x, t), float).ravel(), np.asarray(m.jacobian(x, t), float).ravel())
+            for v in names:
+                as_ode_v = "as_ode" in case["routes" + v]
+                q = None if as_ode_v else pairs(Vs[v].model, x, t, nS)
+                num[v] = num[v] + (q,)
+            for v in names[1:]:
+                if not vec_close(num["A"][0], num[v][0], rel=1e-9, abs_=1e-9):
+                    viol.append({"what": "ode(x,t) differs between equivalent specifications (A, %s)" % v, "signature": sg(v),
+                                 "detail": "%s vs %s" % (num["A"][0].tolist(), num[v][0].tolist())})
+                if not vec_close(num["A"][1], num[v][1], rel=1e-8, abs_=1e-8):
+                    viol.append({"what": "jacobian(x,t) differs between equivalent specifications (A, %s)" % v, "signature": sg(v),
+                                 "detail": "%s vs %s" % (num["A"][1].tolist(), num[v][1].tolist())})
+                if num["A"][2] is not None and num[v][2] is not None and not multiset_close(num["A"][2], num[v][2]):
+                    viol.append({"what": "(eventRateVector, vMat column) multiset differs between equivalent specifications (A, %s)" % v,
+                                 "signature": sg(v), "detail": "%s vs %s" % (num["A"][2], num[v][2])})
+            if ref is not None:
+                exp = sorted([[float(ref[2][j])] + [float(z) for z in ref[1][j]] for j in range(len(ref[2]))])
+                for v in names:
+                    if not vec_close(num[v][0], ref[0], rel=1e-9, abs_=1e-9):
+                        viol.append({"what": "ode(x,t) of variant %s is not the ODE of the process set" % v, "signature": sg(v, "spec:"),
+                                     "detail": "%s expected %s at %s" % (num[v][0].tolist(), [mpf_s(z) for z in ref[0]], pt)})
+                    if num[v][2] is not None and not multiset_close(num[v][2], exp):
+                        viol.append({"what": "(eventRateVector, vMat column) pairs of variant %s are not the process set" % v, "signature": sg(v, "spec:"),
+                                     "detail": "%s expected %s at %s" % (num[v][2], exp, pt)})
         except Exception as exc:
             viol.append({"what": "evaluator raised %s: %s" % (type(exc).__name__, str(exc)[:200]), "signature": "evaluator-raise:%s" % type(exc).__name__, "detail": ""})
         if viol:
             break
-    return {"nontrivial": bool(nonzero and json.dumps(case["A"], sort_keys=True) != json.dumps(case["B"], sort_keys=True)),
-            "mismatches": mism, "violations": viol, "tags": tags + (["as_ode"] if as_ode else []),
-            "sample": {"A": case["A"], "B": case["B"]}}
+    distinct = len({json.dumps(case[v], sort_keys=True) for v in names}) > 1
+    return {"nontrivial": bool(nonzero and distinct),
+            "mismatches": mism, "violations": viol, "tags": tags + (["as_ode"] if any("as_ode" in case["routes" + v] for v in names) else []),
+            "sample": {v: case[v] for v in names}}
 
 
-def sig(case):
-    ra, rb = set(case["routesA"]), set(case["routesB"])
+def sig(case, v="B"):
+    ra, rb = set(case["routesA"]), set(case["routes" + v])
     return "differs:routes=%s|%s" % (",".join(sorted(ra)), ",".join(sorted(rb)))
